@@ -189,6 +189,8 @@ class RingDomain:
     def contract_for(self, I, f, this, args):
         if f.qname in self.obj_contracts:
             spec = self.obj_contracts[f.qname]
+            if getattr(spec, "raw", False):
+                return spec
             return lambda I_, f_, t_, a_: apply_spec_as_contract(I_, self, f_, t_, a_, spec)
         if isinstance(this, Leaf):
             return self.method
@@ -256,6 +258,13 @@ class RingDomain:
             this.val = self.sym("sqrt", A(0))
         elif n == "legendre":
             return I.path.decide(("legendre", repr(self.val(this))[:60]), (1, 0, -1))
+        elif n == "read_big_endian":
+            # a function of the bytes only (C02 byte I/O): an opaque value tagged with the source buffer
+            this.val = Poly.var("BE(bytes)")
+        elif n == "hash_reduce":
+            # value reduced below the modulus; the returned flag is the old top bit (C10 BV unit): both abstract here
+            this.val = self.sym("hash_reduce", self.val(this))
+            return I.path.decide(("hash_reduce", "top bit"), (0, 1))
         else:
             raise SymxError("no ring contract for %s on abstract %s" % (f.qname, t))
         return None
